@@ -510,6 +510,8 @@ type c12job struct {
 	group   string
 	// finish turns the child's stdout into (impl, served)
 	finish func(out string) (impl string, served bool)
+	// explain words a failure: class is "P" (child died), "H" (timeout) or "ok" (finished, not served)
+	explain func(class, out, panicLine string) (key, text string)
 }
 
 func runC12Jobs(jobs []*c12job, w *hx.Writer) {
@@ -541,15 +543,27 @@ func runC12Jobs(jobs []*c12job, w *hx.Writer) {
 				impl, served = j.finish(out)
 			}
 			oracle := "ok"
+			explain := j.explain
+			if explain == nil {
+				explain = func(class, out, panicLine string) (string, string) {
+					switch class {
+					case "P":
+						return "node-crash:" + j.group, "the node crashed on a malformed " + j.group + " input (" + j.arg + "): " + panicLine
+					case "H":
+						return "node-hang:" + j.group, "the node did not come back after a malformed " + j.group + " input (" + j.arg + ")"
+					}
+					return "stopped-serving:" + j.group, "after a malformed " + j.group + " input (" + j.arg + ") the node no longer serves honest sessions / requests: " + out
+				}
+			}
 			switch {
 			case class == "P":
 				impl = hx.P
-				oracle = hx.Fail("node-crash:"+j.group, "the node crashed on a malformed "+j.group+" input ("+j.arg+"): "+lastPanic)
+				oracle = hx.Fail(explain("P", out, lastPanic))
 			case class == "H":
 				impl = "H"
-				oracle = hx.Fail("node-hang:"+j.group, "the node did not come back after a malformed "+j.group+" input ("+j.arg+")")
+				oracle = hx.Fail(explain("H", out, lastPanic))
 			case !served:
-				oracle = hx.Fail("stopped-serving:"+j.group, "after a malformed "+j.group+" input ("+j.arg+") the node no longer serves honest sessions / requests: "+out)
+				oracle = hx.Fail(explain("ok", out, lastPanic))
 			}
 			j.c.Impl = impl
 			j.c.Oracle = oracle
